@@ -855,16 +855,24 @@ class Ctx:
         if not self.is_intvalued(q):
             raise Inconclusive("concretize of a non-integer symbolic value")
         for _ in range(limit):
-            # candidate from a model of the path condition
-            if self.model is None:
-                if self._check() != "sat":
-                    raise _Abort()
-                self.model = self.solver.model()
-            vals = self._model_values(self.model)
-            v = q.n.evalf(vals) / q.d.evalf(vals)
-            if v.denominator != 1:
-                raise HarnessError("integer-valued term evaluated to a fraction")
-            v = int(v)
+            # candidate from a model of the path condition; logged, so that a replay proposes the same candidates
+            if self.pos < len(self.log) and self.log[self.pos].kind == "cand":
+                v = self.log[self.pos].value
+                self.pos += 1
+            else:
+                if self.pos < len(self.log):
+                    raise HarnessError("non-deterministic replay (candidate)")
+                if self.model is None:
+                    if self._check() != "sat":
+                        raise _Abort()
+                    self.model = self.solver.model()
+                vals = self._model_values(self.model)
+                v = q.n.evalf(vals) / q.d.evalf(vals)
+                if v.denominator != 1:
+                    raise HarnessError("integer-valued term evaluated to a fraction")
+                v = int(v)
+                self.log.append(_Entry("cand", None, v, level=self.level))
+                self.pos += 1
             if q == v:
                 return v
         raise Inconclusive("concretize: too many values")
